@@ -295,6 +295,9 @@ func runC08(c *Ctx) {
 		}
 		return false
 	}, monitorStream("C08"), ignoredMonitor)
+	// a reopen that is retried asks, at every attempt, for the position settled by then (so that a rollback answered to a later
+	// attempt is taken relative to the right F)
+	runC12Retry(c)
 }
 
 func sortU64Desc(a []uint64) {
